@@ -2,7 +2,7 @@
 """Record the local-name sequences of every function of the reference tree (/repo HEAD) into gcverif/ref_locals.json."""
 import ast, json, os, subprocess, sys
 sys.path.insert(0, os.path.join(os.path.dirname(os.path.abspath(__file__)), ".."))
-from gcverif.renames import binding_sequence, qualnames, binding_skeletons
+from gcverif.renames import binding_sequence, qualnames, binding_skeletons, binding_dependencies
 from gcverif.shapes import describe
 out = {}
 files = subprocess.run("git -C /repo ls-files 'gemclus/*.py' 'gemclus/**/*.py'", shell=True, capture_output=True, text=True).stdout.split()
@@ -24,6 +24,7 @@ for rel in files:
         d[qn] = {"params": sorted(params), "locals": [[n, k] for n, k in seq]}
         d[qn].update(describe(f))
         d[qn]["skel"] = binding_skeletons(f)
+        d[qn]["deps"] = binding_dependencies(f)
     d["__functions__"] = sorted(qn for qn, _ in qualnames(tree))
     out[rel] = d
 json.dump(out, open(os.path.join(os.path.dirname(os.path.abspath(__file__)), "..", "gcverif", "ref_locals.json"), "w"), indent=0, sort_keys=True)
